@@ -41,6 +41,38 @@ binding:  (a) spec -> code: every terminal behaviour of the closed model (CASE l
               list and the final file-system state are validated by TLC (spec/TraceUpdateFile.tla).
               A trace rejected with its events is re-validated on the verdict observables alone:
               only that rejection is a violation, a step-order mismatch is spec drift.
+API surface (notes/API_SURFACE.md) -- every public way of performing the operation, and where it is exercised:
+
+  entry point / variant                              exercised by
+  -------------------------------------------------  ---------------------------------------------------------
+  update_file(remote, local)                         replay (canonical form of every behaviour), traces
+  update_file(..., verbose=False / True / None),     replay + traces, rotating (c19_repo.api_variant); stdout is
+    verbose passed positionally, keyword arguments     swallowed; same expectation (prints must not change the outcome)
+  updateFile (deprecated alias)                      replay + traces, rotating with update_file; DeprecationWarning ignored
+  download_file / downloadFile(remote, local)        own verdict leg: spec entry "download_file" (EnterHelper, FullDownload,
+                                                       OpenNew .. CleanupNew) x every local position x write / rename faults
+                                                       (wrapped and RLIMIT); also as first or second call of two-call behaviours
+  replace_file / replaceFile(lines, local[, enc])    own verdict leg: spec entry "replace_file" (atomic: new content or the
+                                                       old file untouched and no '.new'), same faults; positional and keyword
+                                                       arguments incl. encoding="UTF-8"; mixed into two-call behaviours
+  download_gunzip_lines / downloadGunzipLines(url)   called on the repository's full file after a rotating sample of replays:
+                                                       the lines of the current content (what FullDownload delivers)
+  read_lines_sha1 / readLinesSHA1 / read_lines_sha256  props.c19.hash_leg: lists of str and of bytes lines (0 .. 4097 lines,
+                                                       boundary lengths) against hashlib; indirectly by every hash check
+  remote: file:///path, file://localhost/path,       replay + traces, rotating: plain, localhost, percent-encoded directory
+    percent-encoded / raw space / '+' / non-ASCII,     name with space, '+', e-acute, '~' (also with the space left raw),
+    '/./' and '//' in the path                         '/./' and '//' before the file name
+  remote with a trailing slash                       out of domain: remote names a FILE ("URL, without the .gz suffix");
+                                                       remote + '.gz' and remote + '.diff/Index' would name other files
+  remote: http(s)/ftp URLs                           out of domain here: no network in the sandbox (urllib handles file://
+                                                       through the same urlopen / urlretrieve calls)
+  local: absolute path, relative path, './' + rel    replay + traces, rotating (the call runs with the scratch directory as cwd)
+  local: os.PathLike / bytes                         out of domain: the signature documents `str` (local + '.new' is string
+                                                       concatenation); observed: pathlib.Path raises TypeError as soon as the
+                                                       file has to be written, the local file stays intact
+  consecutive calls through DIFFERENT variants       two-call behaviours and two-call traces draw the variant per call
+  patches_from_ed_script / patch_lines, PackageFile  property C18 / internal parser of the index (D6)
+
 sizes:    (notes/SIZE_STRESS.md) the abstract cases do not change, the concretization has a size
           dimension in both legs.  Replay leg: every k-th behaviour also gets a size-stressed
           concretization (files of exactly 8 KiB / 64 KiB +-1, 100-4097 lines, identical lines, line
@@ -68,7 +100,7 @@ import c19_repo as R
 MANIFEST = dict(
     technique="TLA+ spec UpdateFile (one action per step of update_file/download_file/replace_file over the file-system variables local and local+'.new', one fault per behaviour) model-checked by TLC in a closed configuration; every terminal behaviour replayed into the real function on generated file:// repositories with injected faults (wrapped open/rename and RLIMIT_FSIZE); recorded executions validated by TLC (TraceUpdateFile)",
     text="TLC explores every call of update_file over all histories of at most 4 published versions (content ids, repeats allowed) x how far back the index reaches x local copy absent / at any version / current / foreign x one fault (each patch corrupted or truncated, last patch consistent with the index but producing a wrong result, wrong Current hash, index missing / garbage / empty, open, k-th write, close or rename failing) and checks in every state that the local file is the old or the new content, that a returned call left and returned the current content, that a raised call left the local file untouched and no '.new', that exactly the reached hash and write faults raise, and that every call terminates. A second configuration lets the repository move on after the first call (a version appended under the same URL, under another URL, or another repository) and runs a second call in the same process from the file system the first one left, with the same invariants per call and a fault in either call. Each terminal behaviour, with TLC's terminal state as expectation, is concretized (texts, ed scripts from an independent differ, gzip files, Index in SHA1/SHA256 flavours, field order, padding) and replayed into the real function, write faults both through a wrapped open()/os.rename and implementation-agnostically through RLIMIT_FSIZE in a forked child; two-call behaviours run in one Python process on the same local path with the repository rewritten in between. Every k-th behaviour is additionally replayed in a size-stressed concretization (files of exactly 8 KiB / 64 KiB, thousands of lines, identical lines, boundary line lengths up to 65537, patch names of 1-250 characters, 9-12 digit size columns, write faults at byte 4096 / 8192 / 65536 and at the n-th write for large n); the model's number of writes then counts distinguished writes, so TLC's expectation is length-independent. In the other direction a handful of big cases per run (16 MiB / 100000-line full download, a 1 MiB line, 200-version history with a chain of 199 patches, ...) and random histories of up to 8 versions and 30 lines with a random fault (half of them followed by a second call after the repository moved on) are executed with a recorder on the file-system and download calls and TLC must explain the observed step sequence and final state with the specification's actions.",
-    note="Small-scope for the exhaustive part (<= 4 versions, 0-3 write calls); texts are sampled. Verdict observables: outcome, local file bytes, returned lines, '.new' after an error; step order, exception types, '.new' after success and left-over download temp files are diagnostics (spec_drift). Unspecified and not generated: indexes that parse but have a wrong column count or name unknown patches (D6), lines that are exactly '.', '\\r', non-UTF-8 local files, missing patch files. Write faults injected through wrappers count only when the wrapper fired (else skipped; > 5 % skipped is a machinery failure). The two-call model is small (<= 3 versions, one write, at most one faulty call); the quick tier replays a seeded stratified sample of its behaviours. Spec-level negative controls (five, incl. RememberIndex: index of the first call re-used by the second; two of them in the quick tier) and corrupted control traces (incl. a stale second call) are required to fail in every run.",
+    note="Small-scope for the exhaustive part (<= 4 versions, 0-3 write calls); texts are sampled. Verdict observables: outcome, local file bytes, returned lines, '.new' after an error; step order, exception types, '.new' after success and left-over download temp files are diagnostics (spec_drift). Unspecified and not generated: indexes that parse but have a wrong column count or name unknown patches (D6), lines that are exactly '.', '\\r', non-UTF-8 local files, missing patch files. Write faults injected through wrappers count only when the wrapper fired (else skipped; > 5 % skipped is a machinery failure). Every public entry point is exercised (table in the module docstring): update_file with every spelling of verbose, the deprecated aliases, download_file and replace_file as verdict legs of their own with the same fault injection, download_gunzip_lines and the hash helpers, equivalent spellings of the file:// URL and of the local path, rotating over the behaviours and mixed within two-call behaviours; a run in which a variant was never exercised is a machinery failure. The two-call model is small (<= 3 versions, one write, at most one faulty call); the quick tier replays a seeded stratified sample of its behaviours. Spec-level negative controls (five, incl. RememberIndex: index of the first call re-used by the second; two of them in the quick tier) and corrupted control traces (incl. a stale second call) are required to fail in every run.",
     design="5 (C19)")
 
 NEG_CONTROLS = [("noCleanup", "NeverCorrupt"), ("skipVerifyResult", "Converges"),
@@ -102,7 +134,7 @@ def tla_set(sets):
 
 def neg_cfg(mode, inv, maxn):
     return ("SPECIFICATION SpecD\nCONSTANTS\n  MaxN = %d\n  Sizes = {0, 2}\n  FlavourSets = {{\"SHA1\"}}\n"
-            "  Mode = \"%s\"\n  Runs = 1\n  RememberIndex = FALSE\n  Emit = FALSE\nINVARIANT %s\n" % (maxn, mode, inv))
+            "  Mode = \"%s\"\n  Runs = 1\n  FaultKinds = {\"none\", \"patchCorrupt\", \"patchTruncated\", \"badLastPatch\", \"wrongResultHash\", \"indexMissing\", \"indexGarbage\", \"indexEmpty\", \"writeFails\", \"renameFails\"}\n  FlavourPhase = 9\n  Entries = {\"update_file\"}\n  RememberIndex = FALSE\n  Emit = FALSE\n  EmitEvery = 1\n  EmitPhase = 0\nINVARIANT %s\n" % (maxn, mode, inv))
 
 
 # ------------------------------------------------------------------ trace leg helpers
@@ -209,6 +241,49 @@ def short_in(i):
     return i
 
 
+def hash_leg(ctx, rng, n):
+    """read_lines_sha1 / readLinesSHA1 / read_lines_sha256 on lists of str and of bytes lines against
+    hashlib (reference library): the helpers the hash checks of update_file rest on, incl. the alias"""
+    import hashlib
+    import warnings
+    from debian import debian_support as ds
+    for j in range(n):
+        kind = j % 5
+        if kind == 0:
+            lines = []
+        elif kind == 1:
+            lines = R.big_lines(rng, [rng.choice(R.BOUNDARY_LENS + R.BIG_LENS) for _ in range(rng.randint(1, 12))])
+        elif kind == 2:
+            lines = R.big_lines(rng, R.length_list(rng, rng.choice([1000, 4097]), "short"))
+        else:
+            lines = [R.rand_line(rng) for _ in range(rng.randint(1, 30))]
+        as_bytes = j % 2 == 1
+        data = "".join(lines).encode("utf-8")
+        arg = [x.encode("utf-8") for x in lines] if as_bytes else lines
+        for name, ref in (("read_lines_sha1", hashlib.sha1), ("readLinesSHA1", hashlib.sha1), ("read_lines_sha256", hashlib.sha256)):
+            m = hash_check(name, arg, ref(data).hexdigest())
+            ctx.case_seen(("hash", j, name), True)
+            if m:
+                ctx.violation({"kind": "hash", "fn": name, "lines": lines, "as_bytes": as_bytes}, m)
+                return
+
+
+def hash_check(name, arg, want):
+    import warnings
+    from debian import debian_support as ds
+    try:
+        with warnings.catch_warnings():
+            warnings.simplefilter("ignore")
+            got = getattr(ds, name)(list(arg))
+    except Exception as e:      # an observation
+        return "%s(%d %s lines) raised %s: %s" % (name, len(arg), "bytes" if arg and isinstance(arg[0], bytes) else "str",
+                                                  type(e).__name__, str(e)[:150])
+    if got != want:
+        return "%s(%d %s lines) = %r, hashlib gives %r" % (name, len(arg), "bytes" if arg and isinstance(arg[0], bytes) else "str",
+                                                        got, want)
+    return None
+
+
 def stuck_at(n):
     return "call %d, after %d specification steps" % (n // 1000 + 1, n % 1000)
 
@@ -249,7 +324,7 @@ def _sample2(rng, cases2, budget):
     groups = {}
     for i, c in enumerate(cases2):
         p = c["prev"]
-        key = (c["in"]["rep"], p["in"]["fault"]["k"], c["in"]["fault"]["k"], p["pc"], c["pc"],
+        key = (c["in"]["rep"], p["in"]["entry"], c["in"]["entry"], p["in"]["fault"]["k"], c["in"]["fault"]["k"], p["pc"], c["pc"],
                p["in"]["local0"] == R.ABSENT, any(x["a"] == "FullDownload" for x in p["path"]),
                any(x["a"] == "FullDownload" for x in c["path"]), c["in"]["hist"][-1] == p["in"]["hist"][-1])
         groups.setdefault(key, []).append(i)
@@ -276,21 +351,43 @@ def _run(ctx, quick, flavs, pool):
     # 1. emission: every terminal behaviour of the closed models, with TLC's terminal state; the
     #    single-call model and the model of two consecutive calls are emitted side by side
     from concurrent.futures import ThreadPoolExecutor
-    emit_cfg = _cfg("MC_UpdateFile_emit_quick.cfg" if quick else "MC_UpdateFile_emit.cfg", FlavourSets=tla_set(flavs))
-    with ThreadPoolExecutor(2) as ex:
-        f1 = ex.submit(ctx.tlc_must_hold, "UpdateFile", emit_cfg, workers=1, want_tags={"CASE"}, count=False)
-        f2 = ex.submit(ctx.tlc_must_hold, "UpdateFile", _cfg("MC_UpdateFile_runs.cfg", FlavourSets=tla_set(flavs[:1])),
-                       workers=1, want_tags={"CASE"}, count=False)
-        r_emit, r_runs = f1.result(), f2.result()
-    for r in (r_emit, r_runs):
-        ctx.states += r.distinct
-        ctx.transitions += r.generated
+    emit_cfg = _cfg("MC_UpdateFile_emit_quick.cfg" if quick else "MC_UpdateFile_emit.cfg", FlavourSets=tla_set(flavs),
+                    FlavourPhase=str(ctx.seed % 3) if quick else "9")
+    def neg(mode, inv):
+        if mode == "RememberIndex":
+            cfg = _cfg("MC_UpdateFile_runs.cfg", RememberIndex="TRUE", Emit="FALSE")
+            cfg = cfg[:cfg.index("INVARIANTS")] + "INVARIANT %s\n" % inv
+        else:
+            cfg = neg_cfg(mode, inv, 1 if quick else 2)
+        r = ctx.tlc("UpdateFile", cfg, workers=1, count=False)
+        if r.violated != inv:
+            raise core.MachineryError("negative control %s: expected %s to fail, TLC says %r" % (mode, inv, r.violated))
+        return inv
+    # all TLC processes are started now and run side by side (the design-level ones do not depend on
+    # /repo); the replays start as soon as the first emission is there
+    controls = ([NEG_CONTROLS[0]] if quick else NEG_CONTROLS) + [("RememberIndex", "Converges")]
+    ex = ThreadPoolExecutor(5 + len(controls))
+    f1 = ex.submit(ctx.tlc_must_hold, "UpdateFile", emit_cfg, workers=1, want_tags={"CASE"}, count=False)
+    f2 = ex.submit(ctx.tlc_must_hold, "UpdateFile", _cfg("MC_UpdateFile_runs_quick.cfg" if quick else "MC_UpdateFile_runs.cfg", FlavourSets=tla_set(flavs[:1]),
+                        EmitPhase=str(ctx.seed % 5) if quick else "0"),
+                   workers=3 if quick else 1, want_tags={"CASE"}, count=False)
+    f_main = ex.submit(ctx.tlc_must_hold, "UpdateFile", "MC_UpdateFile_quick.cfg" if quick else "MC_UpdateFile.cfg",
+                       workers=4 if quick else 8, count=False)
+    # termination under weak fairness: quick <= 3 versions, thorough <= 4 versions
+    f_live = ex.submit(ctx.tlc_must_hold, "UpdateFile",
+                       _cfg("MC_UpdateFile_live.cfg", MaxN=2) if quick else "MC_UpdateFile_live.cfg", workers=2, count=False)
+    f_neg = {mode: ex.submit(neg, mode, inv) for mode, inv in controls}
+    try:
+        _run2(ctx, quick, flavs, pool, phase, t0, f1, f2, f_main, f_live, f_neg)
+    finally:
+        ex.shutdown(wait=True, cancel_futures=True)
+
+
+def _run2(ctx, quick, flavs, pool, phase, t0, f1, f2, f_main, f_live, f_neg):
+    r_emit = f1.result()
     cases = _cases(r_emit)
     if not cases:
         raise core.MachineryError("UpdateFile emitted no CASE lines")
-    cases2 = _cases(r_runs)
-    if not cases2 or any(c.get("prev", {}).get("pc", "none") == "none" for c in cases2):
-        raise core.MachineryError("UpdateFile (Runs = 2) emitted no / malformed two-call CASE lines")
     phase["emission"] = round(time.time() - t0, 1)
     # size stress, trace leg: the handful of really big / long cases go to the pool first
     topts = {"flavour_sets": flavs, "diff_e": not quick}
@@ -322,6 +419,11 @@ def _run(ctx, quick, flavs, pool):
     trace_async = pool.map_async(R.record_chunk, [(ctx.work, ctx.seed, ch, topts) for ch in tchunks], chunksize=1)
 
     # 1b. two consecutive calls in one process (the repository moves on in between)
+    r_runs = f2.result()
+    cases2 = _cases(r_runs)
+    if not cases2 or any(c.get("prev", {}).get("pc", "none") == "none" for c in cases2):
+        raise core.MachineryError("UpdateFile (Runs = 2) emitted no / malformed two-call CASE lines")
+    phase["emission_two_calls"] = round(time.time() - t0, 1)
     if quick:
         picked, ngroups = _sample2(ctx.rng, cases2, 600)
     else:
@@ -337,30 +439,12 @@ def _run(ctx, quick, flavs, pool):
     replay2_async = pool.map_async(R.replay_chunk, [(ctx.work, ctx.seed, ch, opts) for ch in chunks2], chunksize=1)
 
     # 2. design level (independent of /repo), while the pool replays; the TLC processes run side by side
-    def neg(mode, inv):
-        if mode == "RememberIndex":
-            cfg = _cfg("MC_UpdateFile_runs.cfg", RememberIndex="TRUE", Emit="FALSE")
-            cfg = cfg[:cfg.index("INVARIANTS")] + "INVARIANT %s\n" % inv
-        else:
-            cfg = neg_cfg(mode, inv, 1 if quick else 2)
-        r = ctx.tlc("UpdateFile", cfg, workers=1, count=False)
-        if r.violated != inv:
-            raise core.MachineryError("negative control %s: expected %s to fail, TLC says %r" % (mode, inv, r.violated))
-        return inv
-    # quick: two of the five negative controls, thorough: all
-    controls = ([NEG_CONTROLS[0]] if quick else NEG_CONTROLS) + [("RememberIndex", "Converges")]
+    # 2. design level: collect
     t1 = time.time()
-    with ThreadPoolExecutor(3 + len(controls)) as ex:
-        f_main = ex.submit(ctx.tlc_must_hold, "UpdateFile", "MC_UpdateFile_quick.cfg" if quick else "MC_UpdateFile.cfg",
-                           workers=6 if quick else 8, count=False)
-        # termination under weak fairness: quick <= 3 versions, thorough <= 4 versions
-        f_live = ex.submit(ctx.tlc_must_hold, "UpdateFile",
-                           _cfg("MC_UpdateFile_live.cfg", MaxN=2) if quick else "MC_UpdateFile_live.cfg", workers=2, count=False)
-        f_neg = {mode: ex.submit(neg, mode, inv) for mode, inv in controls}
-        r_main, r_live = f_main.result(), f_live.result()
-        neg = {mode: f.result() for mode, f in f_neg.items()}
-    phase["design_tlc"] = round(time.time() - t1, 1)
-    for r in (r_main, r_live):          # counted here, not in the threads
+    r_main, r_live = f_main.result(), f_live.result()
+    neg = {mode: f.result() for mode, f in f_neg.items()}
+    phase["wait_for_design_tlc"] = round(time.time() - t1, 1)
+    for r in (r_emit, r_runs, r_main, r_live):          # counted here, not in the threads
         ctx.states += r.distinct
         ctx.transitions += r.generated
     ctx.extra["model"] = {"closed_config": {"MaxN": 3, "Sizes": [2] if quick else [0, 2], "FlavourSets": [["SHA1", "SHA256"]] if quick else ALL_FLAVOURS,
@@ -423,6 +507,21 @@ def _run(ctx, quick, flavs, pool):
     ctx.extra["two_call_behaviours_by_kind"] = {k: sum(1 for x in results2 if cases2[int(x["idx"][4:])]["in"]["rep"] == k)
                                                 for k in ("same", "mirror", "fresh")}
     ctx.extra["replay_status"] = status_n
+    api_n = {}
+    for x in results + results2:
+        for a in x.get("apis", []):
+            for key in ("fn", "verbose", "url", "local"):
+                if key == "verbose" and a["entry"] != "update_file":
+                    continue
+                api_n["%s=%s" % (key, a[key])] = api_n.get("%s=%s" % (key, a[key]), 0) + 1
+            api_n["args=%s" % ("keyword" if a.get("kw") else "positional")] = api_n.get("args=%s" % ("keyword" if a.get("kw") else "positional"), 0) + 1
+    api_n["download_gunzip_lines / downloadGunzipLines checks"] = sum(1 for x in results + results2 if x.get("dgl"))
+    ctx.extra["calls_per_api_variant"] = api_n
+    missing = [v for v in (["fn=" + f for fs in R.ENTRY_FNS.values() for f in fs] + ["verbose=" + v for v in R.VERBOSE_FORMS]
+                           + ["url=" + u for u in R.URL_FORMS] + ["local=" + l for l in R.LOCAL_FORMS]) if not api_n.get(v)]
+    if missing:
+        raise core.MachineryError("API variants never exercised in this run: %r" % missing)
+    hash_leg(ctx, ctx.rng, 40 if quick else 400)
     ctx.extra["skipped_due_to_drift"] = skipped
     ctx.extra["model_steps_per_action"] = per_action
     ctx.extra["behaviours_per_fault"] = per_fault
@@ -508,6 +607,12 @@ def replay(ctx, case):
         if res["status"] == "violation":
             return res["msg"]
         return None
+    if case["kind"] == "hash":
+        import hashlib
+        lines = case["lines"]
+        arg = [x.encode("utf-8") for x in lines] if case["as_bytes"] else lines
+        ref = hashlib.sha256 if "256" in case["fn"] else hashlib.sha1
+        return hash_check(case["fn"], arg, ref("".join(lines).encode("utf-8")).hexdigest())
     if case["kind"] in ("trace", "trace-big"):
         if case["kind"] == "trace-big":
             t = R.record_big(ctx.work, case["seed"], case["which"], case["rep"])[0]
